@@ -149,8 +149,8 @@ func (p *ProjectRunner) runProcess(config *types.ProcessConfig) {
 		procLog = pclog.NewLogBuffer(0)
 	}
 	procState, _ := p.GetProcessState(config.ReplicaName)
-	isMain := config.Name == p.mainProcess
 	hasMain := p.mainProcess != ""
+	isMain := hasMain && config.Name == p.mainProcess
 	printLogs := !hasMain && !p.isTuiOn
 	extraArgs := []string{}
 	if isMain {
